@@ -554,7 +554,7 @@ func c14a(c *Ctx) {
 	}
 	c.Check(start && step && apps == 1 && okElem, "multiplier/expands-n-copies", c.W.Pos(loopPhi.Pos()), "i from 0 to n-1, one copy of the step token per iteration", "the expansion loop does not append exactly one copy of the step for each i in [0, n)")
 	hm := c.mustLits(fn, loopPhi.Block())
-	c.Check(hasLit(hm, "-("+n+" <= 0)"), "multiplier/lower-bound", c.W.Pos(loopPhi.Pos()), "multiplier >= 1", "the expansion is reached without rejecting multipliers <= 0")
+	c.Check(hasLit(hm, "+(0 < "+n+")"), "multiplier/lower-bound", c.W.Pos(loopPhi.Pos()), "multiplier >= 1", "the expansion is reached without rejecting multipliers <= 0")
 	c.Check(hasLit(hm, "-(9999 < "+n+")"), "multiplier/upper-bound", c.W.Pos(loopPhi.Pos()), "multiplier <= 9999", "the expansion is reached without rejecting multipliers > 9999")
 	c.Check(hasLit(hm, "+("+c.term(fn, call.(ssa.Value))+"#1 == nil)"), "multiplier/parse-error-checked", c.W.Pos(loopPhi.Pos()), "ParseInt error is checked", "the ParseInt error is not checked before the value is used")
 }
